@@ -18,10 +18,10 @@ b2=$(cargo build --offline --features tracing >>$log 2>&1 && echo ok || echo FAI
 mv $demo /tmp/$id.rs.aside
 suite=$(cargo nextest run --workspace --no-fail-fast --offline 2>&1 | tee -a $log | grep -E "tests run:" | tail -1)
 mv /tmp/$id.rs.aside $demo
-with=$(cargo test --offline --test $name 2>&1 | tee -a $log | grep -E "^test result" | tail -1)
-git stash push -q -- src
-without=$(cargo test --offline --test $name 2>&1 | tee -a $log | grep -E "^test result" | tail -1)
-git stash pop -q
+with=$(RUSTFLAGS="${DEMO_RUSTFLAGS:-}" cargo test --offline --test $name 2>&1 | tee -a $log | grep -E "^test result" | tail -1)
+git diff -- src > /tmp/$id.src.patch; git apply -R /tmp/$id.src.patch
+without=$(RUSTFLAGS="${DEMO_RUSTFLAGS:-}" cargo test --offline --test $name 2>&1 | tee -a $log | grep -E "^test result" | tail -1)
+git apply /tmp/$id.src.patch; rm -f /tmp/$id.src.patch
 checks=$(/verif/lib/try_seeded.sh $out/patch.diff $P "$@" 2>&1 | grep -E "^==|VIOLATION" | cut -c1-140)
 python3 - "$out" "$P" "$b1" "$b2" "$suite" "$with" "$without" "$checks" <<'PY'
 import json,sys
